@@ -94,7 +94,7 @@ func (c *wouldApplyContext) wouldApplyGSUB(table tables.GSUBLookup) bool {
 		return len(c.glyphs) == 1 && ok
 
 	case tables.LigatureSubs:
-		if !ok {
+		if !ok || index >= len(data.LigatureSets) { // a coverage index may exceed the coverage length
 			return false
 		}
 		ligatureSet := data.LigatureSets[index].Ligatures
@@ -159,6 +159,9 @@ func (c *otApplyContext) applyGSUB(table tables.GSUBLookup) bool {
 		}
 
 	case tables.MultipleSubs:
+		if index >= len(data.Sequences) { // a coverage index may exceed the coverage length
+			return false
+		}
 		c.applySubsSequence(data.Sequences[index].SubstituteGlyphIDs)
 
 	case tables.AlternateSubs:
@@ -169,6 +172,9 @@ func (c *otApplyContext) applyGSUB(table tables.GSUBLookup) bool {
 		return c.applySubsAlternate(alternates)
 
 	case tables.LigatureSubs:
+		if index >= len(data.LigatureSets) { // a coverage index may exceed the coverage length
+			return false
+		}
 		ligatureSet := data.LigatureSets[index].Ligatures
 		return c.applySubsLigature(ligatureSet)
 
@@ -195,6 +201,9 @@ func (c *otApplyContext) applyGSUB(table tables.GSUBLookup) bool {
 	case tables.ReverseChainSingleSubs:
 		if c.nestingLevelLeft != maxNestingLevel {
 			return false // no chaining to this type
+		}
+		if index >= len(data.SubstituteGlyphIDs) { // a coverage index may exceed the coverage length
+			return false
 		}
 		lB, lL := len(data.BacktrackCoverages), len(data.LookaheadCoverages)
 
